@@ -33,6 +33,14 @@ RULE = ("seeded random declaration sets (1-12 variables, formats BHIQbhiq x "
 ASSUMPTIONS = ["possible CPUs == os.cpu_count() on this machine (checked)"]
 MIN_EVALUATIONS = {"quick": 300, "thorough": 8000}
 SCALAR = ["B", "H", "I", "Q", "b", "h", "i", "q", "x"]
+# scalars stored with an explicit byte order
+ORDERED = [">h", "<h", "!i", ">i", "<i", ">H", "<I", ">q", "!Q", ">I"]
+
+
+def scalar(f):
+    return len(f) == 1 or f in ORDERED
+
+
 MULTI = ["3H", "2I", "5B", "64I", "2q", "IH", "QI", "Ib", "QB", "HB"]
 
 
@@ -44,7 +52,7 @@ def plan(tier, seed):
 
 def gen_case(rng):
     def decls(prefix, lo, hi):
-        return [[f"{prefix}{i}", rng.choice(SCALAR * 3 + MULTI)]
+        return [[f"{prefix}{i}", rng.choice(SCALAR * 3 + MULTI + ORDERED)]
                 for i in range(rng.randint(lo, hi))]
     base = decls("b", 0, 4)
     derived = decls("d", 1, 5)
@@ -65,6 +73,8 @@ def gen_case(rng):
 def value_for(rng, fmt):
     if fmt == "x":
         return rng.randint(-10 ** 9, 10 ** 9) / 100000
+    if fmt in ORDERED:
+        fmt = fmt[-1]
     if len(fmt) > 1 and not fmt[0].isdigit():
         # mixed-width tuple formats such as "IH"
         return tuple(value_for(rng, ch) for ch in fmt)
@@ -94,34 +104,40 @@ def build(case):
     bns = {"license": "GPL", "m": m, "mode": m.globalVar("B")}
     crng = random.Random(case["valseed"] ^ 0x5a5a)
     consts = {n: value_for(crng, f) for n, f in visible_vars(case)
-              if len(f) == 1}
+              if scalar(f)}
     for n, f in case["base"]:
         bns[n] = m.globalVar(f)
-        if len(f) == 1:
+        if scalar(f):
             bns["t_" + n] = m.globalVar(f)
+            if f != "x":
+                bns["w_" + n] = m.globalVar("q")
     Base = type("VfBase", (XDP,), bns)
     dns = {}
     if not case["inherit_only"]:
         dns["m"] = m
     for n, f in case["derived"]:
         dns[n] = m.globalVar(f)
-        if len(f) == 1:
+        if scalar(f):
             dns["t_" + n] = m.globalVar(f)
+            if f != "x":
+                dns["w_" + n] = m.globalVar("q")
     if case["override"]:
         n, f = case["override"]
         dns[n] = m.globalVar(f)
         dns["t_" + n] = m.globalVar(f)
+        if f != "x":
+            dns["w_" + n] = m.globalVar("q")
     subclasses = []
     for j, dl in enumerate(case["subcls"]):
         sns = {}
         for n, f in dl:
             sns[n] = m.globalVar(f)
-            if len(f) == 1:
+            if scalar(f):
                 sns["t_" + n] = m.globalVar(f)
 
         def sprogram(self, dl=dl):
             for n, f in dl:
-                if len(f) == 1:
+                if scalar(f):
                     setattr(self, "t_" + n, getattr(self, n))
         sns["program"] = sprogram
         subclasses.append(type(f"VfSub{j}", (SubProgram,), sns))
@@ -131,13 +147,16 @@ def build(case):
         with self.mode == 1:
             # compile-time constants stored by the program
             for n, f in visible_vars(case):
-                if len(f) == 1:
+                if scalar(f):
                     setattr(self, n, consts[n])
             self.r0 = 2
             self.exit()
         for n, f in visible_vars(case):
-            if len(f) == 1:
+            if scalar(f):
                 setattr(self, "t_" + n, getattr(self, n))
+                if f != "x":
+                    # the same value in a 64-bit context
+                    setattr(self, "w_" + n, getattr(self, n))
         for s in self.subprograms:
             s.program()
         self.r0 = 2
@@ -205,7 +224,7 @@ def check_case(case, res):
             allvars = []
             for pname, obj, dl in progs:
                 names = [(n, f) for n, f in dl]
-                names += [("t_" + n, f) for n, f in dl if len(f) == 1]
+                names += [("t_" + n, f) for n, f in dl if scalar(f)]
                 for n, f in names:
                     d = resolved(obj, n)
                     if not isinstance(d, ArrayGlobalVarDesc):
@@ -267,7 +286,7 @@ def check_case(case, res):
                                   f"{pname}.{n} ({f}) was {vals[pname, n]} "
                                   f"now {got}", case=case)
                     return
-                if len(f) == 1:
+                if scalar(f):
                     tw = getattr(obj, "t_" + n)
                     res.count("program_copies_checked")
                     if not same(f, tw, vals[pname, n]):
@@ -276,6 +295,17 @@ def check_case(case, res):
                             f"program copied {pname}.{n} ({f}) = "
                             f"{vals[pname, n]} as {tw}", case=case)
                         return
+                    if pname == "main" and f != "x":
+                        wide = getattr(obj, "w_" + n)
+                        v = vals[pname, n]
+                        want = v - (1 << 64) if v >= 1 << 63 else v
+                        res.count("program_copies_into_64_bits_checked")
+                        if wide != want:
+                            res.violation(
+                                "unexplained:program-read-differs",
+                                f"program copied {pname}.{n} ({f}) = {v} "
+                                f"into a q variable as {wide}", case=case)
+                            return
             # ---- constants stored by the program ------------------------
             e.mode = 1
             ld.run_k(bytes(64))
@@ -331,13 +361,13 @@ def percpu_leg(res, rng):
                   "cnt": pm.globalVar("I")}
             for i, f in enumerate(fmts):
                 ns[f"p{i}"] = pm.globalVar(f)
-                if len(f) == 1:
+                if scalar(f):
                     ns[f"i{i}"] = am.globalVar(f)
 
             def program(self):
                 self.cnt += 1
                 for i, f in enumerate(fmts):
-                    if len(f) == 1:
+                    if scalar(f):
                         setattr(self, f"p{i}", getattr(self, f"i{i}"))
                 self.r0 = 2
                 self.exit()
@@ -364,6 +394,13 @@ def percpu_leg(res, rng):
                 ld.close()
                 continue
             cpus = rng.sample(allowed, min(len(allowed), rng.randint(2, 3)))
+            # sequence objects obtained once, before anything ran, and kept
+            # (as a monitoring loop would): they must show every later read
+            kept = None
+            if rnd % 2:
+                e.pm.read()
+                kept = [e.cnt] + [getattr(e, f"p{i}")
+                                  for i in range(len(fmts))]
             written = {}
             runs = {}
             try:
@@ -402,6 +439,21 @@ def percpu_leg(res, rng):
                               case=desc)
                 ld.close()
                 continue
+            if kept is not None:
+                res.count("percpu_kept_sequence_objects", len(kept))
+                fresh = [e.cnt] + [getattr(e, f"p{i}")
+                                   for i in range(len(fmts))]
+                stale = [k for k, (a, b) in enumerate(zip(kept, fresh))
+                         if [repr(v) for v in a] != [repr(v) for v in b]]
+                if stale:
+                    res.violation(
+                        "unexplained:percpu-kept-object-stale",
+                        f"per-CPU sequence objects obtained before the runs "
+                        f"do not show the values of the latest read(): "
+                        f"variables {stale}, e.g. {list(kept[stale[0]])[:4]} "
+                        f"vs {list(fresh[stale[0]])[:4]}", case=desc)
+                    ld.close()
+                    continue
             for cpu in range(ncpu):
                 want_n = runs.get(cpu, 0)
                 if e.cnt[cpu] != want_n:
